@@ -545,14 +545,14 @@ func cmdRun(args []string) int {
 	seenSig := map[string]bool{}
 	nReplayed := 0
 	for _, v := range fresh {
-		sig := v.Witness.Harness + "|" + v.Kind + "|" + v.Msg
+		sig := v.Witness.Harness + "|" + v.Kind + "|" + v.Msg + "|" + v.Detail
 		cnt := 0
 		for s := range seenSig {
 			if strings.HasPrefix(s, sig+"#") {
 				cnt++
 			}
 		}
-		if cnt >= 5 || nReplayed >= 25 {
+		if cnt >= 5 || nReplayed >= 60 {
 			continue
 		}
 		seenSig[sig+"#"+strconv.Itoa(cnt)] = true
@@ -573,7 +573,7 @@ func cmdRun(args []string) int {
 			exit = 1
 			line := fmt.Sprintf("VIOLATION property=%s replay=%s", spec.ID, path)
 			fmt.Println(line)
-			fmt.Printf("  %s: %s [%s] inputs: %s params: %v (native: %s %s)\n", v.Kind, v.Msg, v.Pos, v.Witness.Describe(), v.Witness.Params, rr.outcome, rr.detail)
+			fmt.Printf("  %s: %s [%s] inputs: %s params: %v (native: %s %s) %s\n", v.Kind, v.Msg, v.Pos, v.Witness.Describe(), v.Witness.Params, rr.outcome, rr.detail, v.Detail)
 			report = append(report, fmt.Sprintf("%s: %s :: %s", v.Kind, v.Msg, v.Witness.Describe()))
 		} else {
 			inconcl = append(inconcl, fmt.Sprintf("counterexample did not reproduce natively (%s: %s; native %s %s) inputs %s params %v", v.Kind, v.Msg, rr.outcome, rr.detail, v.Witness.Describe(), v.Witness.Params))
